@@ -129,7 +129,7 @@ PROFILES = [('hazard', 3), ('alu', 2), ('ssa', 2), ('ssald', 1.5), ('branch', 1)
 
 def run(ctx):
     return syscheck.run(
-        ctx, 'C04', ['C04', 'C04_scoreboard', 'C01_mvp60', 'C01_mvp61', 'C01_mvp62', 'C12_mvp63', 'C01_mvp63', 'C01_mvp63_fwd', 'C01_mvp70', 'C01_mvp71'], PROFILES, S.PIPELINED, pre=scoreboard_check, n_quick=120, n_thorough=2000, repeats=2,
+        ctx, 'C04', ['C04', 'C04_scoreboard', 'C01_mvp60', 'C01_mvp61', 'C01_mvp62', 'C12_mvp63', 'C01_mvp63', 'C01_mvp63_fwd', 'C01_mvp70', 'C01_mvp71', 'C01_mvp80'], PROFILES, S.PIPELINED, pre=scoreboard_check, n_quick=120, n_thorough=2000, repeats=2,
         assumptions=['each case is run twice per cell (schedule dependence through Go map iteration shows as a differing repeat)'],
         text_rule='register-pressure programs over 2-4 registers (chains, fans, WAW and WAR pairs, loads as slow producers overtaken by fast writers) '
                   'and general ALU programs; all pipelined variants x parallelism 1..4 inside the calibrated domains; non-trivial = the program has a register reused '
